@@ -41,13 +41,14 @@ fn cipher_from_mode(aes_mode: AesMode, key: &[u8]) -> Box<dyn aes_ctr::AesCipher
 pub struct AesReader<R> {
     reader: R,
     aes_mode: AesMode,
-    data_length: u64,
+    /// `None` if the entry is too short to hold salt, verifier and authentication code
+    data_length: Option<u64>,
 }
 
 impl<R: Read> AesReader<R> {
     pub fn new(reader: R, aes_mode: AesMode, compressed_size: u64) -> AesReader<R> {
         let data_length = compressed_size
-            - (PWD_VERIFY_LENGTH + AUTH_CODE_LENGTH + aes_mode.salt_length()) as u64;
+            .checked_sub((PWD_VERIFY_LENGTH + AUTH_CODE_LENGTH + aes_mode.salt_length()) as u64);
 
         Self {
             reader,
@@ -68,6 +69,12 @@ impl<R: Read> AesReader<R> {
     /// If the password verification failed `Ok(None)` will be returned to match the validate
     /// method of ZipCryptoReader.
     pub fn validate(mut self, password: &[u8]) -> io::Result<Option<AesReaderValid<R>>> {
+        let data_length = self.data_length.ok_or_else(|| {
+            io::Error::new(
+                io::ErrorKind::InvalidData,
+                "AES encrypted entry is shorter than its salt, verifier and authentication code",
+            )
+        })?;
         let salt_length = self.aes_mode.salt_length();
         let key_length = self.aes_mode.key_length();
 
@@ -100,7 +107,7 @@ impl<R: Read> AesReader<R> {
 
         Ok(Some(AesReaderValid {
             reader: self.reader,
-            data_remaining: self.data_length,
+            data_remaining: data_length,
             cipher,
             hmac,
             finalized: false,
